@@ -193,7 +193,35 @@ func (c *compiler) evalUserFunction(node *userFunction, args []ast.Expression) (
 		c.ctx.Set(p.Value, vals[i])
 	}
 
-	return c.evalBlockStatement(node.Block)
+	res, err := c.evalBlockStatement(node.Block)
+	if err != nil {
+		return nil, err
+	}
+
+	if ro, ok := res.(returnObject); ok {
+		return returnValue(ro), nil
+	}
+
+	return res, nil
+}
+
+// returnValue is what a return statement carries out of a function: the
+// returned value itself, preceded by whatever the body rendered before it.
+func returnValue(ro returnObject) interface{} {
+	out := []interface{}{}
+	for _, v := range ro.Value {
+		if inner, ok := v.(returnObject); ok {
+			v = returnValue(inner)
+		}
+
+		out = append(out, v)
+	}
+
+	if len(out) == 1 {
+		return out[0]
+	}
+
+	return out
 }
 
 func (c *compiler) evalFunctionLiteral(node *ast.FunctionLiteral) (interface{}, error) {
